@@ -3,6 +3,8 @@
 package replication
 
 import (
+	"net"
+
 	replication_proto "github.com/KevoDB/kevo/proto/kevo/replication"
 )
 
@@ -34,3 +36,53 @@ func (p *Primary) VerifSessionCount() int {
 	defer p.mu.RUnlock()
 	return len(p.sessions)
 }
+
+// ---- seams used when replication.Manager itself runs in the simulation
+// (tools/simrewrite substitutes three expressions; see applySeams)
+
+// VerifNewConnector, when set, supplies the connector of every new Replica
+// instead of DefaultPrimaryConnector (which dials a real socket).
+var VerifNewConnector func() PrimaryConnector
+
+func verifConnector() PrimaryConnector {
+	if VerifNewConnector != nil {
+		return VerifNewConnector()
+	}
+	return &DefaultPrimaryConnector{}
+}
+
+// VerifListen, when set, replaces net.Listen for the primary's gRPC server.
+var VerifListen func(address string) (net.Listener, error)
+
+func verifListen(address string) (net.Listener, error) {
+	if VerifListen != nil {
+		return VerifListen(address)
+	}
+	return net.Listen("tcp", address)
+}
+
+// VerifWrapApplier, when set, wraps the applier the manager hands to its replica.
+var VerifWrapApplier func(listenAddr string, a WALEntryApplier) WALEntryApplier
+
+func verifWrapApplier(listenAddr string, a *EngineApplier) WALEntryApplier {
+	if VerifWrapApplier != nil {
+		return VerifWrapApplier(listenAddr, a)
+	}
+	return a
+}
+
+// VerifPrimary / VerifReplica expose what Manager.Start created.
+func (m *Manager) VerifPrimary() *Primary {
+	m.mu.RLock()
+	defer m.mu.RUnlock()
+	return m.primary
+}
+
+func (m *Manager) VerifReplica() *Replica {
+	m.mu.RLock()
+	defer m.mu.RUnlock()
+	return m.replica
+}
+
+// VerifListenerAddr is the replica's own listener address (identifies the node).
+func (r *Replica) VerifListenerAddr() string { return r.config.ReplicationListenerAddr }
